@@ -6,7 +6,9 @@ CONFIG = dict(
     level="exploration",
     rule=("typed opcode programs (bounded-exhaustive over a 37-symbol alphabet, sharded by 2-symbol "
           "prefix; seeded random long programs over a wide alphabet; every protocol's encoding of "
-          "generated values; call-opcode x fate vocabulary matrix; one program per pickle opcode). "
+          "generated values; call-opcode x fate vocabulary matrix; one program per pickle opcode; the identical call repeated 2-3 times through every call opcode; "
+          "special-cased callee names from builtins, a stdlib and a non-stdlib module; torch-saved pickles). "
+          "Every refusal is retried on the same object. "
           "A case is one distinct byte string; non-trivial = the reference VM accepted it, its event "
           "log has >=1 import or call, and fickling decompiled it (so the inclusion oracle ran)."),
     assumptions=[
